@@ -380,6 +380,20 @@ class LifetimeCtx:
         if c and not self.crashed and list(c["seam"]) == list(seam):
             self.do_crash(seam)
 
+    def inside_save_seam(self, step: int):
+        """Main is inside solver.save(), the manager's save() has returned (asynchronous mode)."""
+        started_now = SIM.bg_started > getattr(self, "_e0_inside", 1 << 60)
+        if started_now and self.inflight is None:
+            # the hand-over happened: from here on the save is in flight
+            self.save_count += 1
+            self.inflight, self.inflight_ticks, self.inflight_idx = step, 0, self.save_count - 1
+            self._counted_inside = True
+            try:
+                SIM.wait_for(lambda: step in SIM.meta_opened or step in SIM.done, f"metadata file of {step}", timeout=20.0)
+            except HarnessError:
+                self.h["events"].append(["metadata_file_not_seen", step])
+        self.at_seam(("mgr_save_return", step))
+
     def do_crash(self, seam):
         c = self.crash
         phase = None
@@ -502,6 +516,8 @@ class LifetimeCtx:
             st = capture(solver)
             n0 = len(SIM.started)
             e0 = SIM.bg_started
+            ctx._e0_inside = e0
+            ctx._counted_inside = False
             before = set(steps_in(os.path.join(ctx.fsdir, ctx.dir_rel)))
             with SIM.cv:
                 SIM.entry_hold = ctx.asyn
@@ -530,9 +546,11 @@ class LifetimeCtx:
             ctx.run.rec.setdefault((ctx.dir_rel, step), []).append(st)
             if started:
                 ctx.pending_state[step] = st
-                ctx.save_count += 1
                 ctx.run.stat("saves_started")
-                if ctx.asyn:
+                if ctx.asyn and ctx._counted_inside:
+                    pass  # already registered as in flight at the seam inside save()
+                elif ctx.asyn:
+                    ctx.save_count += 1
                     ctx.inflight, ctx.inflight_ticks, ctx.inflight_idx = step, 0, ctx.save_count - 1
                 else:
                     # synchronous: committed when save() returned; deletions done
@@ -573,6 +591,25 @@ class LifetimeCtx:
                 mgr.wait_until_finished = wait_w
             except AttributeError:
                 pass
+            # a seam inside solver.save(), right after the manager's save() returned: whatever
+            # mdpax does after that call (nothing but a log line on the pinned tree) is separated
+            # from the hand-over to the writer, so the writer may overtake it and a kill may fall
+            # in between
+            if callable(getattr(mgr, "save", None)):
+                o_msave = mgr.save
+
+                def msave_w(step, *a, **k):
+                    r = o_msave(step, *a, **k)
+                    import threading as _th
+
+                    if _th.get_ident() == main_ident and SIM.active and SIM.in_save and not ctx.crashed and ctx.asyn:
+                        ctx.inside_save_seam(int(step))
+                    return r
+
+                try:
+                    mgr.save = msave_w
+                except AttributeError:
+                    pass
 
 
 def _threshold_of(solver) -> float:
